@@ -514,11 +514,22 @@ func makeClassesReady(p *slip.Package) {
 }
 
 func classChanged(cc slip.Class, p *slip.Package) {
+	var subs []isStandardClass
 	for _, c := range p.AllClasses() {
 		if c.Inherits(cc) {
 			if sc, ok := c.(isStandardClass); ok {
-				sc.mergeSupers()
+				subs = append(subs, sc)
 			}
 		}
+	}
+	// A class must be merged after the classes it inherits from since the
+	// merge takes the inherit list of its direct supers. The inherit list of
+	// a class is always longer than the inherit lists of its supers so
+	// sorting by length gives a safe order.
+	sort.SliceStable(subs, func(i, j int) bool {
+		return len(subs[i].InheritsList()) < len(subs[j].InheritsList())
+	})
+	for _, sc := range subs {
+		sc.mergeSupers()
 	}
 }
